@@ -169,6 +169,11 @@ where
     W: Write + Send,
 {
     fn drop(&mut self) {
+        // a writer that never wrote anything must still wait for its turn before it lets its
+        // successor go, otherwise the successor would overtake the responses still pending
+        if let Some(v) = self.trigger.take() {
+            v.recv().ok();
+        }
         self.on_finish.send(()).ok();
     }
 }
